@@ -94,7 +94,7 @@ def check_flow(n, arcs, supplies, flows, objective):
     return None
 
 
-def judge_result(fname, res, verdict, n, arcs, supplies, table):
+def judge_result(fname, res, verdict, n, arcs, supplies, table, limited=False):
     from solvor.types import Status
 
     if verdict == "nontermination":
@@ -106,6 +106,13 @@ def judge_result(fname, res, verdict, n, arcs, supplies, table):
         if want is not None:
             return [("wrong_infeasible", f"INFEASIBLE but a feasible flow of cost {want[0]} exists")], "INFEASIBLE"
         return [], "INFEASIBLE"
+    if limited and res.status == Status.MAX_ITER:
+        return [], "MAX_ITER"  # a declared iteration limit was hit and nothing is claimed
+    if limited and res.status == Status.FEASIBLE:
+        if want is None:
+            return [("flow_for_infeasible", f"status FEASIBLE with flow {res.solution} but no feasible flow exists")], "FEASIBLE"
+        e = check_flow(n, arcs, supplies, res.solution, res.objective)
+        return ([e] if e else []), "FEASIBLE"
     if res.status != Status.OPTIMAL:
         return [("status", f"status {res.status.name}")], res.status.name
     if want is None:
@@ -171,6 +178,20 @@ def run_graph(r, n, arcs, do_mcf=True, do_ns=True):
             _rec(r, "network_simplex", errs, label, table, list(sup), dict(wit, supplies=list(sup)), f"network_simplex({n}, {arcs}, {list(sup)})")
             if not errs and res is not None and res.ok and tuple(sup) in costs_seen and abs(costs_seen[tuple(sup)] - res.objective) > 1e-9:
                 r["violations"].append(viol("network_simplex", "solvers_disagree", dict(wit, supplies=list(sup)), f"min_cost_flow cost {costs_seen[tuple(sup)]} vs network_simplex cost {res.objective} on {arcs} supplies {sup}"))
+            # the same instance under an iteration limit: MAX_ITER / FEASIBLE claim nothing about optimality, every
+            # other answer is judged exactly as before
+            for mi in (1, 2, 3):
+
+                def call_limited():
+                    try:
+                        return network_simplex(n, [tuple(a) for a in arcs], list(sup), max_iter=mi), None
+                    except Exception as ex:  # noqa: BLE001
+                        return None, f"{type(ex).__name__}: {ex}"
+
+                v, verdict = guarded(call_limited, 2.0, 5_000_000)
+                res, err = (None, None) if verdict else v
+                errs, label = judge_result("network_simplex", res, verdict or err, n, arcs, list(sup), table, limited=True)
+                _rec(r, "network_simplex", errs, f"max_iter:{label}", table, list(sup), dict(wit, supplies=list(sup), max_iter=mi), f"network_simplex({n}, {arcs}, {list(sup)}, max_iter={mi})")
         # unbalanced supplies are infeasible by definition
         sup = [1] + [0] * (n - 1)
         try:
@@ -328,6 +349,6 @@ def replay(v):
         return rr["violations"][0] if rr["violations"] else None
     run_graph(r, w["n"], [tuple(a) for a in w["arcs"]])
     for x in r["violations"]:
-        if x["function"] == v["function"] and all(x["witness"].get(k) == w.get(k) for k in ("source", "sink", "demand", "supplies")):
+        if x["function"] == v["function"] and all(x["witness"].get(k) == w.get(k) for k in ("source", "sink", "demand", "supplies", "max_iter")):
             return x
     return None
